@@ -67,6 +67,21 @@ SCOPE_CTX = [("module", "%s"), ("fn", "fn ctx() { %s } ctx();"), ("lambda", "let
              ("for", "for q in [1] { %s }"), ("catch", "try { raise Error('c'); } catch ce { %s }"), ("if", "if true { %s }"), ("fn_in_fn", "fn o() { fn ctx() { %s } ctx(); } o();")]
 SCOPE_OUTER = [("none", "%s"), ("module", "let n = [Error];\n%s"), ("local", "fn outer() { let n = [Error]; %s } outer();")]
 
+# every syntactic position that holds an expression x every kind of name the resolver has to look at x every context:
+# the resolver and the compiler must agree on which positions exist (a position only one of them visits is a panic or an unseen name)
+EXPR_POS = ["%s;", "let p = %s;", "print(%s);", "let p = [%s];", "let p = [1, %s];", "let p = (%s, 1);", "let p = {%s: 1};", "let p = {1: %s};", "let p = [1][%s];",
+            "let p = 'a${%s}b';", "let p = -%s;", "let p = !%s;", "let p = 1 + %s;", "let p = %s + 1;", "let p = true && %s;", "let p = false || %s;", "let p = true ? %s : 2;",
+            "let p = false ? 1 : %s;", "let p = %s ? 1 : 2;", "if %s { }", "while %s { break; }", "for it in %s { }", "let p = chan(%s);", "let ch0 = chan(1); ch0 <- %s;",
+            "let p = <- %s;", "launch %s();", "fn la(a) {} launch la(%s);", "fn ca(a) {} ca(%s);", "let p = %s();", "let p = %s.str();", "let p = %s.name;", "let p = [0]; p[%s] = 1;",
+            "let p = [0]; p[0] = %s;", "class Pf { init() { self.f = %s; } } Pf();", "class Pg { init() { self.f = 1; } } Pg().f = %s;", "let p = 1; p = %s;", "let p = 1; p += %s;",
+            "try { raise %s; } catch pe { }", "try { } catch pe: %s { }", "class Ps : %s {}", "let p = || %s;", "let p = |a| { return %s; };", "let p = [1].iter().map(|a| %s).list();",
+            "let p = %s.a.b;", "let p = (%s);", "let p = [%s, %s];", "let p = %s == %s;", "let p: %s = 1;"]
+EXPR_ATOMS = ["n", "zz", "Number", "self", "(|| n)()", "[n][0]", "n.str()", "@f", "super.m()", "print", "1"]
+EXPR_CTX = [("module", "let n = 2;\n%s"), ("fn_local", "fn ctx() { let n = 2; %s } ctx();"), ("param", "fn ctx(n) { %s } ctx(2);"), ("lambda_capture", "fn ctx() { let n = 2; let l = || { %s }; l(); } ctx();"),
+            ("lambda_param_capture", "fn ctx(n) { return || { %s }; } ctx(2)();"), ("method", "class Ctx { init() { self.f = 3; } m(n) { %s } } Ctx().m(2);"),
+            ("method_lambda", "class Ctx { init() { self.f = 3; } m(n) { let l = || { %s }; l(); } } Ctx().m(2);"), ("nested_fn", "fn o() { let n = 2; fn ctx() { %s } ctx(); } o();"),
+            ("loop_body", "for n in [2] { %s }"), ("catch_body", "try { raise Error('c'); } catch n { %s }"), ("none", "%s")]
+
 
 def nest_source(path, leaf):
     body = leaf
@@ -208,13 +223,13 @@ class C15(Check):
     rule = ("inputs: (seq) all token sequences up to the tier's length bound over one lexeme per token kind; (mut) every "
             "(chars) every character sequence of length <= 3 (<= 4 thorough for the bare/string/interpolation contexts) over a 24 character alphabet "
             "(quotes, backslash, $, braces, 2- and 4-byte characters, line ends, NUL, escape letters, digits, comment characters) in 7 lexical contexts; "
-            "(nest) every nesting of depth <= 3 (<= 4 thorough) over 11 containers (loops, functions, lambdas, methods, initialisers, statics, if/else, try/catch) "
+            "(exprpos) %d expression positions x %d kinds of name x %d contexts; (nest) every nesting of depth <= 3 (<= 4 thorough) over 11 containers (loops, functions, lambdas, methods, initialisers, statics, if/else, try/catch) "
             "around each of 21 leaf statements; (scope) 25 self-referring binder forms x 8 contexts x 3 outer declarations; "
             "single-token deletion, duplication, adjacent swap and replacement by each of %d lexemes, every byte prefix and "
             "every single-byte replacement by each of 7 bytes, of each corpus program; (bound) nesting/count boundary family. "
             "Each input: compile-only run, full run (step limit 200k), REPL session [definition, input, probe]. "
             "non-trivial = the input is rejected with diagnostics or accepted and executed (always), counted per distinct input"
-            % len(REPLACERS))
+            % (len(EXPR_POS), len(EXPR_ATOMS), len(EXPR_CTX), len(REPLACERS)))
     assumptions = ["front end reached through Vm::run / Vm::repl with harness Io; imports of user modules are not resolved (in-memory fs is empty)",
                    "runtime crashes of accepted inputs are C16's business and are not judged here",
                    "nesting families stop at depth 256 (property: bounded nesting)"]
@@ -250,6 +265,11 @@ class C15(Check):
             for _, ctx in SCOPE_CTX:
                 for body in SELF_REF:
                     yield ("scope", outer % (ctx % body))
+        # (exprpos)
+        for _, ctx in EXPR_CTX:
+            for pos in EXPR_POS:
+                for atom in EXPR_ATOMS:
+                    yield ("exprpos", ctx % (pos.replace("%s", atom)))
         # (mut)
         corpus = list(SMALL_CORPUS)
         if th:
